@@ -79,6 +79,58 @@ fn start_generate_watchdog() {
     });
 }
 
+/// A long-lived generating thread: what `generate` emits for a text AFTER having generated other
+/// texts on the same thread (call history). On the pinned tree that is byte-identical to the
+/// canonical emission; where it is not (a cache that outlives the call), the parser emitted under
+/// that history is workload for Engine B as well, and its replay carries the history.
+struct HistoryThread {
+    tx: std::sync::mpsc::Sender<String>,
+    rx: std::sync::mpsc::Receiver<GenResult>,
+    reply_tx: std::sync::mpsc::Sender<GenResult>,
+    texts: Vec<String>,
+}
+
+impl HistoryThread {
+    fn spawn() -> HistoryThread {
+        let (tx, trx) = std::sync::mpsc::channel::<String>();
+        let (rtx, rx) = std::sync::mpsc::channel::<GenResult>();
+        let reply_tx = rtx.clone();
+        std::thread::Builder::new()
+            .stack_size(64 << 20)
+            .spawn(move || {
+                TL_KEYS.with(|k| k.set(Some((0, 0))));
+                while let Ok(text) = trx.recv() {
+                    let r = catch_unwind(AssertUnwindSafe(|| kiki::generate(&text).map_err(|e| format!("{:?}", e))));
+                    if rtx.send(Some(r)).is_err() {
+                        break;
+                    }
+                }
+            })
+            .expect("spawn history thread");
+        HistoryThread { tx, rx, reply_tx, texts: vec![] }
+    }
+
+    /// `None`: the call did not return (the thread must be abandoned).
+    fn generate(&mut self, text: &str) -> Option<std::thread::Result<Result<kiki::RustSrc, String>>> {
+        start_generate_watchdog();
+        {
+            *GEN_WATCH.lock().unwrap() = Some((real_now_s(), self.reply_tx.clone()));
+        }
+        if self.tx.send(text.to_string()).is_err() {
+            return None;
+        }
+        let r = self.rx.recv();
+        {
+            *GEN_WATCH.lock().unwrap() = None;
+        }
+        self.texts.push(text.to_string());
+        match r {
+            Ok(Some(r)) => Some(r),
+            _ => None,
+        }
+    }
+}
+
 fn arg_val(args: &[String], name: &str) -> Option<String> {
     args.iter().position(|a| a == name).and_then(|i| args.get(i + 1)).cloned()
 }
@@ -207,6 +259,8 @@ fn main() {
             let mut entries: Vec<J> = vec![];
             let mut accepted = 0usize;
             let mut k = start;
+            let mut hist = HistoryThread::spawn();
+            let mut history_variants = 0usize;
             while accepted < want && k - start < max_tries {
                 if GENERATE_TIMEOUTS.load(std::sync::atomic::Ordering::SeqCst) >= 10 {
                     break;
@@ -225,6 +279,64 @@ fn main() {
                 let dir = out.join(format!("g{k}"));
                 let fate = emit(&g, &text, &dir);
                 let (nn, nt, nr) = g.size();
+                // the same text on the long-lived thread (history of at most 8 earlier texts)
+                if hist.texts.len() >= 8 {
+                    hist = HistoryThread::spawn();
+                }
+                if (k as usize) >= gen::N_REPO_EXAMPLES {
+                    // half of the time the history contains revisions of this very grammar (the
+                    // same names, one rule changed): what a cache keyed on names is wrong for
+                    let mut rrng = Rng::derive(seed, &[ENGINE_B, k, 0x4E7]);
+                    if rrng.chance(1, 2) {
+                        let n = rrng.range(1, 2);
+                        for _ in 0..n {
+                            let rev = gen::revision(&g, &mut rrng);
+                            if hist.generate(&rev.render_plain()).is_none() {
+                                GENERATE_TIMEOUTS.fetch_add(1, std::sync::atomic::Ordering::SeqCst);
+                                hist = HistoryThread::spawn();
+                            }
+                        }
+                    }
+                }
+                let before = hist.texts.clone();
+                match hist.generate(&text) {
+                    None => {
+                        GENERATE_TIMEOUTS.fetch_add(1, std::sync::atomic::Ordering::SeqCst);
+                        hist = HistoryThread::spawn();
+                    }
+                    Some(Ok(Ok(src_h))) => {
+                        if let Fate::Accepted = fate {
+                            let canon = fs::read_to_string(dir.join("g.rs")).unwrap_or_default();
+                            if canon != src_h.0 && !before.is_empty() {
+                                // emitted under history differs from the canonical emission: the
+                                // difference itself is C14's subject; the parser is C03 workload
+                                let hdir = out.join(format!("g{k}h"));
+                                fs::create_dir_all(&hdir).expect("mkdir");
+                                for f in ["glue.rs", "model.json", "src.kiki", "main.rs"] {
+                                    fs::copy(dir.join(f), hdir.join(f)).expect("copy");
+                                }
+                                fs::write(hdir.join("g.rs"), &src_h.0).expect("write g.rs");
+                                fs::write(
+                                    hdir.join("history.json"),
+                                    J::Arr(before.iter().map(|t| J::str(t)).collect()).to_string(),
+                                )
+                                .expect("write history");
+                                history_variants += 1;
+                                entries.push(
+                                    J::obj()
+                                        .set("item", J::Int((k + 5_000_000) as i128))
+                                        .set("family", J::str(&format!("{}@history", g.family)))
+                                        .set("nts", J::uz(nn))
+                                        .set("terms", J::uz(nt))
+                                        .set("rules", J::uz(nr))
+                                        .set("fate", J::str("accepted"))
+                                        .set("dir", J::str(&hdir.to_string_lossy())),
+                                );
+                            }
+                        }
+                    }
+                    Some(_) => {}
+                }
                 let mut e = J::obj()
                     .set("item", J::Int(k as i128))
                     .set("family", J::str(&g.family))
@@ -250,6 +362,7 @@ fn main() {
                 .set("start", J::Int(start as i128))
                 .set("next", J::Int(k as i128))
                 .set("accepted", J::uz(accepted))
+                .set("history_variants", J::uz(history_variants))
                 .set("entries", J::Arr(entries));
             fs::write(out.join("manifest.json"), m.to_string()).expect("write manifest");
             println!("{}", J::obj().set("accepted", J::uz(accepted)).set("next", J::Int(k as i128)).to_string());
@@ -632,7 +745,30 @@ fn main() {
             let j = J::parse(&fs::read_to_string(&file).expect("read replay")).expect("json");
             let g = Grammar::from_json(j.get("grammar_model").expect("grammar_model")).expect("model");
             let text = j.get("grammar_kiki").and_then(|x| x.as_str()).expect("grammar_kiki").to_string();
-            let fate = emit(&g, &text, Path::new(&out));
+            let history: Vec<String> = j
+                .get("generation_history")
+                .and_then(|x| x.as_arr())
+                .unwrap_or(&[])
+                .iter()
+                .filter_map(|t| t.as_str().map(|s| s.to_string()))
+                .collect();
+            let fate = if history.is_empty() {
+                emit(&g, &text, Path::new(&out))
+            } else {
+                // regenerate under the recorded call history: the earlier texts first, on one thread
+                let canon_fate = emit(&g, &text, Path::new(&out));
+                let mut h = HistoryThread::spawn();
+                for t in &history {
+                    let _ = h.generate(t);
+                }
+                match (canon_fate, h.generate(&text)) {
+                    (Fate::Accepted, Some(Ok(Ok(src)))) => {
+                        fs::write(Path::new(&out).join("g.rs"), &src.0).expect("write g.rs");
+                        Fate::Accepted
+                    }
+                    (f, _) => f,
+                }
+            };
             let f = match fate {
                 Fate::Accepted => "accepted".to_string(),
                 Fate::Rejected(v) => format!("rejected:{v}"),
